@@ -299,6 +299,11 @@ fn replay(ps: &ProgSpec, seed: u64, max_m_bits: u32, qname: &str, witness: &Hash
     let mut f64_bad: Vec<String> = vec![];
     let mut f64_status = "ok".to_string();
     let small = witness.values().all(|v| *v <= 1_000_000);
+    // FftPlanner::<f64> would pick the AVX/SSE planner; the code that was executed symbolically is
+    // the portable one, so the floating-point replay goes through FftPlannerScalar::<f64>
+    let mut psf = ps.clone();
+    psf.params.insert("planner".into(), "scalar".into());
+    let ps = &psf;
     if small {
         match guarded(|| prog::run::<f64>(ps, &|l| *wf.get(l).unwrap_or(&0.0), &mut f3)) {
             Outcome::Ok(qs) => {
@@ -327,6 +332,9 @@ fn replay(ps: &ProgSpec, seed: u64, max_m_bits: u32, qname: &str, witness: &Hash
 /// Run the driver natively with f64 only (used to reproduce panics found while planning/processing).
 fn native(ps: &ProgSpec) -> String {
     let mut f = Facts::default();
+    let mut psf = ps.clone();
+    psf.params.insert("planner".into(), "scalar".into());
+    let ps = &psf;
     match guarded(|| prog::run::<f64>(ps, &|_| 0.0, &mut f)) {
         Outcome::Ok(_) => format!("{{\"status\":\"ok\",\"notes\":{}}}", jlist(&f.notes)),
         Outcome::Abort(r) => format!("{{\"status\":\"abort\",\"reason\":{}}}", jstr(&r)),
